@@ -86,3 +86,56 @@ def run_case(col, r, idx):
             return
     if idx % 997 == 0:
         col.sample({'lf': lf, 'initial_tokens': h.init_sizes, 'ops': [repr(x) for x in h.log[:12]], 'final_len': len(h.shadow)})
+
+
+def _pinned_production_lf(col):
+    """Production load factor (1000) with a parsed 400-directive file edited through the model API: the multi-block deletions
+    that exposed the stale block indexes. The store must stay self-consistent (iteration vs next/prev/index/len/first/last) and
+    equal the expected identity sequence."""
+    import random
+    from .. import gen
+    from autobean_refactor import models
+    storemodel.set_load_factor(1000)
+    r = random.Random(7)
+    P = common.parser()
+    text = ''
+    while text.count('\n') < 900:
+        t = gen.directive(r, gen.SPACED_LF)
+        try:
+            P.parse(t, models.File)      # each directive is accepted on its own, so is their concatenation
+            text += t
+        except Exception:
+            continue
+    f = P.parse(text, models.File)
+    store = f.token_store
+    nblocks = len(getattr(store, '_blocks', [None] * 9))
+    col.count('pinned_production_tokens', len(store))
+    for lo, hi in ((0, 150), (10, 200), (5, 6), (0, 40)):
+        w = f.raw_directives_with_comments
+        if len(w) <= hi:
+            continue
+        before = list(store)
+        gone = set()
+        for x in w[lo:hi]:
+            gone |= {id(t) for t in x.tokens}
+        try:
+            del w[lo:hi]
+        except Exception as e:
+            col.ev()
+            col.violation('production-lf:model-edit-raised', f'del directives[{lo}:{hi}] on a {len(before)}-token file raised {type(e).__name__}: {e}', {'lf': 1000})
+            return
+        exp = [t for t in before if id(t) not in gone]
+        # separators next to the removed range may go too: compare the survivors' order, then self-consistency
+        cur = list(store)
+        col.ev()
+        ids = {id(t) for t in cur}
+        if [id(t) for t in exp if id(t) in ids] != [id(t) for t in cur if id(t) in {id(x) for x in exp}]:
+            col.violation('production-lf:iter', f'after del directives[{lo}:{hi}] the surviving tokens are not in their old order', {'lf': 1000})
+            return
+        v = storemodel.compare_sequence(store, cur, [(0, len(cur) - 1), (len(cur) // 3, 2 * len(cur) // 3)]) or storemodel.compare_positions(store, cur)
+        if v:
+            col.violation(f'production-lf:{v[0]}', f'after del directives[{lo}:{hi}] ({nblocks} blocks): {v[1]}', {'lf': 1000})
+            return
+
+
+PINNED = [('production load factor, multi-block model edits', _pinned_production_lf)]
